@@ -25,7 +25,7 @@ fn main() {
     let mut r = R { vals, pos: 0, failed: vec![], pre_violated: false };
     macro_rules! dispatch { ($($n:ident),*) => { match h.as_str() { $( stringify!($n) => r_refuter::bodies::$n(&mut r), )* _ => { println!("unknown harness {}", h); std::process::exit(2) } } } }
     let res = catch_unwind(AssertUnwindSafe(|| {
-        dispatch!(eq_text, eq_text_symmetric, eq_bytes, eq_concatenations, cmp_text, truthiness, xor_classifies, defer_protocol, access_list, access_concat_index);
+        dispatch!(eq_text, eq_text_symmetric, eq_bytes, eq_concatenations, cmp_text, truthiness, xor_classifies, end_expression_returns_to_caller, defer_protocol, access_list, access_concat_index);
     }));
     match res {
         Err(p) => {
